@@ -30,8 +30,17 @@ func NewState() *account.AccountDB {
 
 // Addr is the driver's id -> address mapping (ids are small integers >= 1;
 // 0x1000+id keeps clear of the precompile range).
-func Addr(id int) common.Address {
-	return common.BigToAddress(big.NewInt(int64(0x1000 + id)))
+func Addr(id int) common.Address { return addrOf(uint64(0x1000 + id)) }
+
+// addrOf is the 20-byte big-endian address of a small number (what a PUSH of
+// that number denotes in the EVM). common.BytesToAddress left-aligns short
+// inputs, so the array is filled explicitly.
+func addrOf(x uint64) common.Address {
+	var a common.Address
+	for i := 0; i < 8; i++ {
+		a[19-i] = byte(x >> (8 * uint(i)))
+	}
+	return a
 }
 
 // AddrID inverts Addr for addresses of the universe 1..n, else 0.
@@ -44,7 +53,7 @@ func AddrID(a common.Address, n int) int {
 	return 0
 }
 
-var Origin = common.BigToAddress(big.NewInt(0xabcdef))
+var Origin = addrOf(0xabcdef)
 
 // NewEVM builds an EVM the way executor.contractExecutor does, for a block of
 // the given height (the height selects the jump table through
@@ -57,7 +66,7 @@ func NewEVM(st *account.AccountDB, height uint64, gasLimit uint64) *vm.EVM {
 		GetHash:     func(n uint64) common.Hash { return common.BytesToHash([]byte(fmt.Sprintf("block-%d", n))) },
 		Origin:      Origin,
 		GasPrice:    big.NewInt(1),
-		Coinbase:    common.BigToAddress(big.NewInt(0xc0ffee)),
+		Coinbase:    addrOf(0xc0ffee),
 		GasLimit:    gasLimit,
 		BlockNumber: new(big.Int).SetUint64(height),
 		Time:        big.NewInt(1700000000),
